@@ -6,7 +6,9 @@
    must be a behaviour of DagDiff in which every case ends with the property:
       the model's fold of the reported changes over a gives b            (real Diff vs Apply1 semantics)
       the real ApplyChange result equals the model's fold, CID equal to b (real ApplyChange vs Apply1)
-      no change reported when a = b. *)
+      no change reported when a = b.
+   Trees are arbitrary flat dag-pb trees: directories carry their own data id (plain directory payload or
+   one with metadata), so a and b may differ in the data of a populated directory, at the root or nested. *)
 EXTENDS DagDiff, Json, Integers
 
 Trace == ndJsonDeserialize("trace.ndjson")
@@ -30,15 +32,19 @@ TChange == /\ IsEvent("Change")
            /\ Change([t |-> Ev.t, p |-> Ev.p, after |-> Fn(Ev.after)])
            /\ UNCHANGED dev
 
-TApplied == /\ IsEvent("Applied") /\ Ev.err = "" /\ Fn(Ev.tree) = cur
-            /\ \/ Reproduces /\ EmptyOnEqual /\ Ev.cidEq = TRUE /\ UNCHANGED dev
-               \/ DataIgnored /\ Ev.cidEq = FALSE /\ dev' = dev \cup {"Dev_C14_DataIgnored"}
+TApplied == /\ IsEvent("Applied")
+            /\ \/ /\ Ev.err = "" /\ Fn(Ev.tree) = cur
+                  /\ \/ Reproduces /\ EmptyOnEqual /\ Ev.cidEq = TRUE /\ UNCHANGED dev
+                     \/ DataIgnored /\ Ev.cidEq = FALSE /\ dev' = dev \cup {"Dev_C14_DataIgnored"}
+               \* the report is right and contains a change at the empty path; the real ApplyChange fails on it
+               \/ /\ RootModUnapplied /\ Ev.err = RootModError /\ Ev.cidEq = FALSE
+                  /\ dev' = dev \cup {"Dev_C14_RootMod"}
             /\ Finish
 
 TNext == TDiff \/ TChange \/ TApplied
 TSpec == TInit /\ [][TNext]_tvars
 
-TypeOK == phase \in {"idle", "diff"} /\ bad \in BOOLEAN /\ nch \in Nat
+TypeOK == phase \in {"idle", "diff"} /\ bad \in BOOLEAN /\ rootch \in BOOLEAN /\ nch \in Nat
 DevReport == l <= Len(Trace) \/ \A d \in dev : PrintT(<<"DEV_USED", d>>)
 TraceConstraint == TLCSet(1, IF l - 1 > TLCGet(1) THEN l - 1 ELSE TLCGet(1))
 TracePost == PrintT(<<"TRACE_HWM", TLCGet(1)>>)
